@@ -686,6 +686,9 @@ class FIXSchema:
                         raise FIXMessageError(f"Missing required field={repr(f)}")
                     f_val = msg[f.tag]
                     f.validate_value(f_val)
+            elif isinstance(f, SchemaField) and f.tag in msg:
+                # an optional header field that is there has a valid value too
+                f.validate_value(msg[f.tag])
 
     def validate(self, msg: FIXMessage) -> bool:
         """Validates generic FIXMessage based on schema.
